@@ -12,7 +12,7 @@ from __future__ import annotations
 import signal
 
 from .. import coqterm as T
-from .C18_strings import B
+from .C18_strings import B, queue
 
 CHECKERS = ['Wire/ModUtf7Check']
 HEADER = ('From PV Require Import Base.Prelude Wire.Lex Wire.Strings Wire.StringsCheck '
@@ -117,7 +117,7 @@ def section(ctx) -> None:
     bases = [b'+AOk-', b'+2D3eAA-x', b'a+-b', b'+AOkA6Q-', b'+AAA', b'+2D0-', b'+3gA-', b'x+AOk y']
     stream = small_strings(b'+-A/,x\xe9', 4 if quick else 5) + sweep(bases, vals_, not quick) \
         + [mutate(rng, rng.choice(bases), b'+-/,AOk26Qg=\x80 ') for _ in range(ctx.scale(300, 8000))]
-    stream = thin(ctx, stream, 2500)
+    stream = thin(ctx, stream, 1600)
     cases = []
     for buf in stream:
         try:
@@ -126,8 +126,8 @@ def section(ctx) -> None:
             r = ('unicode',)
         ctx.count(('utf7', buf), nontrivial=r[0] == 'ok')
         cases.append(T.pair(B(buf), enc_xstr(r)))
-    for i in ctx.run_cases('py_utf7_decode', HEADER, 'bytes * xstr', cases, 'chk_utf7', **SH)[:5]:
-        ctx.disagreement('py_utf7_decode', {'input': stream[i].hex()})
+    queue(ctx, 'py_utf7_decode', HEADER, 'bytes * xstr', cases, 'chk_utf7',
+          lambda i, stream=stream: {'input': stream[i].hex()})
 
     # --- modutf7_decode
     bases = [b'a&-b', b'&AOk-', b'x&2D3eAA-y', b'&U,BTFw-/&ZeVnLIqe-', b'&AOk', b'a&', b'&AOk-&-',
@@ -135,7 +135,7 @@ def section(ctx) -> None:
     stream = small_strings(b'&-A,x', 4 if quick else 6) + sweep(bases, vals_, not quick) \
         + [mutate(rng, rng.choice(bases), b'&-,/+AOk26Qg\x80 ') for _ in range(ctx.scale(500, 8000))] \
         + [modutf7_encode(gen_name(rng)) for _ in range(ctx.scale(200, 3000))]
-    stream = thin(ctx, stream, 2000)
+    stream = thin(ctx, stream, 1300)
     cases, cm = [], []
     hangs = 0
     for buf in stream:
@@ -153,11 +153,11 @@ def section(ctx) -> None:
                                  enc_xres(m[1], lambda o: T.codepoints(o.value))))
             else:   # an exception other than NotParseable escaped Mailbox.parse
                 cm.append(T.pair(B(buf + tail), '(XNeed 4294967295%N)'))
-    for i in ctx.run_cases('modutf7_decode', HEADER, 'bytes * xstr', cases, 'chk_decode', **SH)[:5]:
-        ctx.disagreement('modutf7_decode', {'input': stream[i].hex(),
-                                            'impl': repr(guarded(modutf7_decode, stream[i]))})
-    for i in ctx.run_cases('mailbox_parse', HEADER, 'bytes * xres (list N)', cm, 'chk_mailbox', **SH)[:5]:
-        ctx.disagreement('mailbox_parse', {'case': cm[i][:300]})
+    queue(ctx, 'modutf7_decode', HEADER, 'bytes * xstr', cases, 'chk_decode',
+          lambda i, stream=stream: {'input': stream[i].hex(),
+                                    'impl': repr(guarded(modutf7_decode, stream[i]))})
+    queue(ctx, 'mailbox_parse', HEADER, 'bytes * xres (list N)', cm, 'chk_mailbox',
+          lambda i, cm=cm: {'case': cm[i][:300]})
 
     # --- modutf7_encode / bytes(Mailbox(s)) and the round-trip monitor
     alphabet = 'a&-\né\U0001F600' if quick else 'a&-+\n\t\x00é\U0001F600'
@@ -169,7 +169,7 @@ def section(ctx) -> None:
         + [a + chr(c) + b for c in (0x9, 0xa, 0xd, 0x26, 0x2d, 0xe9, 0x1F600) for a in ('', 'x', 'é')
            for b in ('', 'y', '&', 'é')] \
         + [gen_name(rng) for _ in range(ctx.scale(400, 12000))]
-    names = thin(ctx, names, 1500)
+    names = thin(ctx, names, 1000)
     cases, keep = [], []
     for s in names:
         ctx.count(('encode', s))
@@ -181,10 +181,9 @@ def section(ctx) -> None:
         cases.append(T.pair(T.codepoints(s), B(modutf7_encode(s)), B(bytes(mb)),
                             T.codepoints(mb.value)))
     ctx.sample({'name': keep[-1], 'encoded': modutf7_encode(keep[-1]).decode('ascii', 'replace')})
-    for i in ctx.run_cases('modutf7_encode', HEADER, 'list N * bytes * bytes * list N', cases,
-                           'chk_encode', **SH)[:5]:
-        ctx.disagreement('modutf7_encode', {'name': [ord(c) for c in keep[i]],
-                                            'impl': modutf7_encode(keep[i]).hex()})
+    queue(ctx, 'modutf7_encode', HEADER, 'list N * bytes * bytes * list N', cases, 'chk_encode',
+          lambda i, keep=keep: {'name': [ord(c) for c in keep[i]],
+                                'impl': modutf7_encode(keep[i]).hex()})
     ctx.extra['utf7'] = {'names': len(keep), 'decode_inputs': len(stream), 'decode_hangs': hangs}
 
 
